@@ -377,7 +377,7 @@ class Program:
         if rng.random() < 0.4:
             opts["need_trough"] = True
         self.world = gen_world(rng, opts)
-        self.gen = Gen(rng, self.world, {"p_comp": 0.9})
+        self.gen = Gen(rng, self.world, {"p_comp": 0.9, "dist_dups": True})
         r = rng.random()
         self.n = rng.randint(1, 8) if r < 0.6 else rng.randint(8, 20) if r < 0.9 else rng.randint(20, 60)
         if tier == "thorough" and rng.random() < 0.2:
